@@ -312,7 +312,13 @@ func runTrial(run *vk.Run, t trial) (out outcome) {
 					}
 				}
 				after := 0
-				for next.Load() < 20000 && !closedNow() {
+				// a slowed websocket (4 ms per chunk) must not be saturated: the heartbeat travels in-band, and a
+				// PONG stuck behind seconds of backlog is a legitimate ping timeout, not a fault of the swap
+				limit := int64(20000)
+				if workers > 1 && t.Fault != "none" {
+					limit = 3000
+				}
+				for next.Load() < limit && !closedNow() {
 					switch t.Pattern {
 					case "full":
 						emit(1)
